@@ -112,7 +112,12 @@ func c10construct(c c10cfg, tplName string, over int, tag string) gen.Node {
 	}
 	e := &gen.NEmbed{Tpl: str(tplName), With: with, Only: only}
 	if over&1 != 0 {
-		e.Blocks = append(e.Blocks, &gen.NBlock{Name: "ba", Body: append([]gen.Node{tx("{OV-ba-" + tag + "}")}, c10probe("ov.ba")...)})
+		ov := append([]gen.Node{tx("{OV-ba-" + tag + "}")}, c10probe("ov.ba")...)
+		if c.target%2 == 0 {
+			// a block of its own nested in the override: it belongs to this embed like the override does
+			ov = append(ov, &gen.NBlock{Name: "bn" + tag, Body: []gen.Node{tx("{NESTED-in-ov-" + tag + "}")}})
+		}
+		e.Blocks = append(e.Blocks, &gen.NBlock{Name: "ba", Body: ov})
 	}
 	if over&2 != 0 {
 		e.Blocks = append(e.Blocks, &gen.NBlock{Name: "bb", Body: append(append([]gen.Node{tx("{OV-bb-" + tag + "}^(")}, pr(&gen.EParent{})), tx(")"))})
@@ -273,7 +278,7 @@ func (p *c10) Run(i int) (res fw.Result) {
 }
 
 func (p *c10) Rule() string {
-	return "exhaustive product {include, embed} x {plain, with {w}, only, with+only, with overriding a host variable, with an existing hash variable + only, with an existing hash variable - a Go map of type map[string]Value, map[string]interface{}, map[string]string or keyed by a defined string type} x call site {top level, loop body whose loop variable collides with a host variable (once with a string, once with null; the construct is used again directly after the loop), block of an extending host whose ancestor has blocks named like the target's, macro body, if body, block of a non-extending host that shares both block names} x target {plain, assigns colliding names x and w, assigns a fresh name, extends a base, extends a base and assigns inside a block} x embed override subset (4 subsets of {ba, bb}; bb's override calls parent()) x {once, twice in a row with the complementary override subset}; random: a second (and third) include/embed nested inside the target's block or an override. Host and target print which of x, y, w, z they see (probe function) at the start, after assignments, inside every block and override, and after the construct. Oracle: reference model (copy of the visible variables overlaid by the with-hash, or the with-hash alone under only; assignments never flow back; embed = exactly the overrides of its body in front of the target's own chain). Non-trivial = a name or block-name collision exists; enumerated coordinates are distinct by construction."
+	return "exhaustive product {include, embed} x {plain, with {w}, only, with+only, with overriding a host variable, with an existing hash variable + only, with an existing hash variable - a Go map of type map[string]Value, map[string]interface{}, map[string]string or keyed by a defined string type} x call site {top level, loop body whose loop variable collides with a host variable (once with a string, once with null; the construct is used again directly after the loop), block of an extending host whose ancestor has blocks named like the target's, macro body, if body, block of a non-extending host that shares both block names} x target {plain, assigns colliding names x and w, assigns a fresh name, extends a base, extends a base and assigns inside a block} x embed override subset (4 subsets of {ba, bb}; bb's override calls parent(); ba's override has a nested block of its own for half of the targets) x {once, twice in a row with the complementary override subset}; random: a second (and third) include/embed nested inside the target's block or an override. Host and target print which of x, y, w, z they see (probe function) at the start, after assignments, inside every block and override, and after the construct. Oracle: reference model (copy of the visible variables overlaid by the with-hash, or the with-hash alone under only; assignments never flow back; embed = exactly the overrides of its body in front of the target's own chain). Non-trivial = a name or block-name collision exists; enumerated coordinates are distinct by construction."
 }
 
 func (p *c10) Assumptions() []string {
